@@ -194,12 +194,22 @@ fn build_member(idx: usize, n: usize, x: usize, cfg: &Value, picker: &mut Picker
         let eqb = cfg["equal_blindings"].as_bool().unwrap_or(false);
         // blindings_count < x: a witness of LOWER extension degree than the statement whose short vectors do reproduce the commitments
         let nb = cfg["blindings_count"].as_u64().map(|v| v as usize).unwrap_or(x);
-        let mut r: Vec<Scalar> = if cfg["zero_blindings"].as_bool().unwrap_or(false) {
+        let zero_here = cfg["zero_blindings"].as_bool().unwrap_or(false) ||
+            cfg["zero_blindings_at"].as_array().map(|a| a.iter().any(|v| v.as_u64() == Some(j as u64))).unwrap_or(false);
+        let mut r: Vec<Scalar> = if zero_here {
             // the all-zero mask: with value 0 the commitment is the identity element (a valid witness)
             vec![Scalar::ZERO; nb]
         } else {
             (0..nb).map(|k| env::sym_scalar(&format!("r_{}_{}_{}", nidx, j, if eqb { 0 } else { k }), "blinding")).collect()
         };
+        // single blinding COMPONENTS equal to zero (a valid witness; the mask to recover then has zero entries)
+        if let Some(zc) = cfg["zero_blinding_components"].as_array() {
+            for k in zc.iter().filter_map(|v| v.as_u64()) {
+                if (k as usize) < r.len() {
+                    r[k as usize] = Scalar::ZERO;
+                }
+            }
+        }
         if cfg["witness_shift"].as_u64() == Some(j as u64) && x >= 2 {
             // another opening of the same commitment under degenerate_g: (r0 + 2, r1 - 1)
             r[0] = r[0] + Scalar::from(2u8);
